@@ -973,6 +973,10 @@ def np_column_stack(cols):
 def np_clip(x, a_min=None, a_max=None, **kw):
     lo = kw.get('min', a_min)
     hi = kw.get('max', a_max)
+    if isinstance(x, ConcArr) and all(b is None or isinstance(b, (int, float, Sym)) for b in (lo, hi)):
+        # a small array of concrete shape: entry by entry
+        one = lambda v: values.clip(_num(v), _num(lo) if lo is not None else None, _num(hi) if hi is not None else None)
+        return ConcArr(_deep_map(x.data, one))
     return values.clip(_num(x), _num(lo) if lo is not None else None, _num(hi) if hi is not None else None)
 
 
